@@ -144,9 +144,10 @@ class DosedSymMech(SymMechModel):
         return self._reg
 
 
-def expected_doses(events, final_time):
+def expected_doses(events, final_time, indefinite_once=False):
     """documented table: one row per administration not later than the last
-    requested time; an indefinite regimen up to that time"""
+    requested time; an indefinite regimen up to that time (without a final
+    time: its first administration only)"""
     rows = []
     for (level, start, duration, period, mult) in events:
         if start > final_time:
@@ -158,6 +159,8 @@ def expected_doses(events, final_time):
         while start + k * period <= final_time and (mult == 0 or k < mult):
             rows.append((start + k * period, duration, level * duration))
             k += 1
+            if mult == 0 and indefinite_once:
+                break
     return rows
 
 
